@@ -126,6 +126,10 @@ func set(a ...string) map[string]bool {
 // 30 s either way, salts are remembered for 60 s).
 const replayWindow = 60 * time.Second
 
+// Sizes above this are "either": the documentation names defaults and lower
+// bounds only, never an upper bound.
+const unboundedFrom = 1 << 20
+
 // --- field-level judgements ----------------------------------------------------------
 
 // duration judges a duration field; present==false when the field is absent.
@@ -219,8 +223,10 @@ func (j *judgement) policies(m J) {
 			j.bad("unknown-reject-policy")
 		}
 	}
-	if num(m, "slidingWindowFilterSize") < 0 {
+	if n := num(m, "slidingWindowFilterSize"); n < 0 {
 		j.bad("negative-sliding-window-filter-size")
+	} else if n > unboundedFrom {
+		j.open("sliding-window-filter-size-without-documented-upper-bound")
 	}
 }
 
@@ -239,8 +245,10 @@ func (j *judgement) tcpListener(l J) {
 	if d, ok := j.duration(l, "initialPayloadWaitTimeout", "initial-payload-wait-timeout"); ok && d < 0 {
 		j.bad("negative-initial-payload-wait-timeout")
 	}
-	if num(l, "initialPayloadWaitBufferSize") < 0 {
+	if n := num(l, "initialPayloadWaitBufferSize"); n < 0 {
 		j.bad("negative-initial-payload-wait-buffer-size")
+	} else if n > unboundedFrom {
+		j.open("initial-payload-wait-buffer-size-without-documented-upper-bound")
 	}
 	j.pmtud(l, "pathMTUDiscovery")
 }
@@ -257,6 +265,8 @@ func (j *judgement) udpPerf(batchMode string, relay, recv, capacity int64) {
 	}
 	if capacity != 0 && capacity < 64 {
 		j.bad("send-channel-capacity-below-64")
+	} else if capacity > unboundedFrom {
+		j.open("send-channel-capacity-without-documented-upper-bound")
 	}
 }
 
@@ -670,6 +680,9 @@ func judge(doc J) *judgement {
 			}
 		default:
 			j.bad("unknown-resolver-type")
+		}
+		if num(rm, "cacheSize") > unboundedFrom {
+			j.open("cache-size-without-documented-upper-bound")
 		}
 	}
 
